@@ -385,6 +385,28 @@ func (e *engine) handleTarget(id, class string, cost int, ks *tinkpb.Keyset, oth
 	pure("write-json", writeJSONCanon)
 	pure("write-no-secrets", writeNoSecretsCanon)
 	pure("manager-from-handle", managerCanon)
+	if class == "jwtsig" {
+		pure("jwk-set-roundtrip", func(h *keyset.Handle) string {
+			ph, err := h.Public()
+			if err != nil {
+				return "public-err"
+			}
+			b, err := jwt.JWKSetFromPublicKeysetHandle(ph)
+			if err != nil {
+				return "err:" + errStr(err)
+			}
+			h2, err := jwt.JWKSetToPublicKeysetHandle(b)
+			if err != nil {
+				return canon(b) + ",parse-err:" + errStr(err)
+			}
+			// the converter draws fresh key ids: only id-independent facts are compared
+			var types []string
+			for _, ki := range h2.KeysetInfo().GetKeyInfo() {
+				types = append(types, kslib.TypeOfURL(ki.GetTypeUrl())+"/"+ki.GetStatus().String()+"/"+ki.GetOutputPrefixType().String())
+			}
+			return canon(b) + "," + strings.Join(types, ";")
+		})
+	}
 	if master != nil {
 		pure("write-encrypted-read", func(h *keyset.Handle) string { return writeEncryptedCanon(h, master) })
 	}
@@ -465,7 +487,11 @@ func (e *engine) handleJobs(its []*item) (jobs []job) {
 	}
 	for i, it := range its {
 		other := its[(i+1)%len(its)].key
-		jobs = append(jobs, mk("handle:"+it.pk.Class+":"+it.token, it.pk.Class, it.cost, it.ks, other))
+		cost := it.cost
+		if cost == 1 && !hlib.Thorough() {
+			cost = 2 // quick tier: 2 and 8 goroutines for the P-384/P-521/ML-DSA/ML-KEM handles
+		}
+		jobs = append(jobs, mk("handle:"+it.pk.Class+":"+it.token, it.pk.Class, cost, it.ks, other))
 	}
 	// keysets with several keys, one of them disabled, primary in the middle
 	for _, class := range multiClasses {
@@ -701,5 +727,3 @@ func (e *engine) keyJobs(its []*item) (jobs []job) {
 	}
 	return
 }
-
-var _ = jwt.NewRawJWT
